@@ -1,10 +1,11 @@
 (* C07 — after any edit history the solver equals a freshly built one.
-   PARTIAL (see DESIGN.md §8): what is proved here holds in every state of every history; the full
-   invariant relating ALL tables (incl. the per-structure ones) to the remaining circuit is stated
-   in DESIGN.md and tied by the correspondence (every observable table after every call), not yet
-   proved. *)
+   The state of the solver AND of every structure it ever held is, in every reachable state, a function of
+   the list of present structures and the set of links (representation invariant Rep, proved to be preserved
+   by every operation: C07_tables_consistent); the matrix of a circuit does not depend on how it was declared
+   (C07_fresh_equivalence).  Not proved: that the free-pin list is exactly the set of unconnected pins (only
+   "free pins belong to present structures" is part of Rep; exactness is tied by the correspondence). *)
 From Coq Require Import List Arith Bool.
-From Lekkersim Require Import Field Matrix Base Network Solve SolveProofs SolveComplete Wiring WiringProofs.
+From Lekkersim Require Import Field Matrix Base Network Solve SolveProofs SolveComplete Wiring WiringProofs WiringInv WiringRep WiringRep2.
 Import ListNotations.
 
 (* solving is a query on the wiring state *)
@@ -23,6 +24,19 @@ Theorem C07_cut_absent_rejected s id :
   step s (Cut id) = (s, Some ENotPresent) /\ step s (Remove id) = (s, Some ENotPresent).
 Proof. exact (cut_absent_rejected s id). Qed.
 
+(* in every reachable state — any history over add, connect, cut, remove, prune, map, raise, solve — the
+   per-structure connection tables, the solver's connection list and the neighbour lists say exactly what the
+   link set says: nothing stale survives a cut or a remove, nothing is lost *)
+Theorem C07_tables_consistent ops z w :
+  let s := run w_empty ops in
+  (entry s (fst z) z = Some w <-> linked s z w) /\
+  (In z (w_clist s) <-> exists w', linked s z w') /\
+  (linked s z w -> nmem (fst z) (w_structs s) = true /\ nmem (fst w) (s_to (getst s (fst z))) = true).
+Proof. exact (tables_consistent ops z w). Qed.
+
+Theorem C07_invariant_everywhere ops : Rep (run w_empty ops).
+Proof. exact (Rep_reachable ops). Qed.
+
 (* the matrix of a state is the one of the circuit it denotes — whatever the history that led to
    it — and that is the exact solution of the network equations of the remaining circuit (C01),
    independent of how the remaining circuit was declared or is eliminated (C03) *)
@@ -40,6 +54,8 @@ Print Assumptions C07_solve_is_query.
 Print Assumptions C07_connect_records.
 Print Assumptions C07_cut_absent_rejected.
 Print Assumptions C07_fresh_equivalence.
+Print Assumptions C07_tables_consistent.
+Print Assumptions C07_invariant_everywhere.
 
 Example C07_history_runs :
   w_free (run w_empty [Add 0 2; Add 1 2; Connect (0,1) (1,0); Cut 1; Add 1 2; Connect (1,1) (0,1)])
